@@ -5,6 +5,8 @@
 use serde_json::{json, Value};
 use std::io::Read;
 
+mod c01;
+mod c12;
 mod c17;
 mod c18;
 mod c19;
@@ -35,6 +37,8 @@ fn main() {
         "c17_roundtrip" => c17::roundtrip(&v),
         "c17_parse" => c17::parse(&v),
         "c17_remap" => c17::remap(&v),
+        "c01_added_lines" => c01::added_lines(&v),
+        "c12_profile" => c12::profile(&v),
         "c19_accepted" => c19::accepted(&v),
         "c19_totals" => c19::totals(&v),
         "c19_numstat" => c19::numstat(&v),
